@@ -349,20 +349,28 @@ class LFRicStencils(LFRicCollection):
 
         if self._unique_extent_vars:
             if self._kernel:
-                for arg in self._kern_args:
+                # Each stencil-size argument is declared according to the
+                # type of the stencil of the argument it belongs to (a
+                # 'cross2d' stencil has one size per branch).
+                sizes_2d = []
+                sizes = []
+                for arg in self._unique_extent_args:
+                    name = self.dofmap_size_symbol(self._symbol_table,
+                                                   arg).name
                     if arg.descriptor.stencil['type'] == "cross2d":
-                        parent.add(DeclGen(
-                            parent, datatype="integer",
-                            kind=api_config.default_kind["integer"],
-                            dimension="4",
-                            entity_decls=self._unique_extent_vars, intent="in"
-                        ))
+                        sizes_2d.append(name)
                     else:
-                        parent.add(DeclGen(
-                            parent, datatype="integer",
-                            kind=api_config.default_kind["integer"],
-                            entity_decls=self._unique_extent_vars,
-                            intent="in"))
+                        sizes.append(name)
+                if sizes_2d:
+                    parent.add(DeclGen(
+                        parent, datatype="integer",
+                        kind=api_config.default_kind["integer"],
+                        dimension="4", entity_decls=sizes_2d, intent="in"))
+                if sizes:
+                    parent.add(DeclGen(
+                        parent, datatype="integer",
+                        kind=api_config.default_kind["integer"],
+                        entity_decls=sizes, intent="in"))
             elif self._invoke:
                 parent.add(DeclGen(
                     parent, datatype="integer",
